@@ -191,7 +191,8 @@ theorem inv_next (s : Sys) (e : Ev) (inv : Inv s) (hc : clean e = true) : Inv (n
       | some w => simp only [acqScript]; exact inv_exit_idle s v i inv hidle
       | none =>
         simp only [acqScript]
-        have := inv_replace s v { s.hs v with mons := upd (s.hs v).mons i .running, acquired := (s.hs v).acquired + 1 }
+        have := inv_replace s v { s.hs v with mons := upd (s.hs v).mons i .running, acquired := (s.hs v).acquired + 1,
+                                              csc := upd (s.hs v).csc i false }
           (upd s.regs i (some v)) s.ws inv ?_ ?_ ?_ ?_
         · exact this
         · intro j hr
@@ -642,6 +643,30 @@ theorem waiter_parked_after_failed_attempt_witness :
   refine ⟨by decide, by decide, by decide, ?_⟩
   intro h
   exact h 0 (by decide) (by decide) (by decide)
+
+/-! ### 6a. an invalidation that arrives after the acquire script ran reaches the monitor -/
+
+/-- try() drains the key's notification channel BEFORE it sends the acquire script. So when a third
+party deletes (or overwrites, or the key expires) right after the script ran on the server — even
+before the reply reaches the client — the notification is in `g.csc[i]` when the key's monitor
+starts, and the monitor's step on it ends the monitor (extend answers 0): the loss is noticed
+without waiting for the ExtendInterval timer. (Draining after the script would throw it away.) -/
+theorem invalidation_after_acquire_script_reaches_monitor (s : Sys) (v i : Nat)
+    (hidle : (s.hs v).mons i = .idle) (hi : i < s.n) (hfree : s.regs i = none) :
+    ((next s (.acq v i)).hs v).csc i = false ∧
+    ((next (next s (.acq v i)) (.extdel i)).hs v).csc i = true ∧
+    ((next (next s (.acq v i)) (.extdel i)).hs v).mons i = .running ∧
+    ((next (next (next s (.acq v i)) (.extdel i)) (.mon v i)).hs v).mons i = .exited := by
+  have h1 : next s (.acq v i) = { s with regs := upd s.regs i (some v),
+      hs := upd s.hs v { s.hs v with mons := upd (s.hs v).mons i .running, acquired := (s.hs v).acquired + 1,
+                                     csc := upd (s.hs v).csc i false } } := by
+    simp only [next, hidle, hi, and_self, if_true, hfree, acqScript]
+  rw [h1]
+  refine ⟨by simp [upd], by simp [next, signalCsc, upd], by simp [next, signalCsc, upd], ?_⟩
+  simp only [next, signalCsc, upd, if_true, delScript, extendScript]
+  by_cases hc : (s.hs v).cancelled = true
+  · simp [hc, upd]
+  · simp [hc, upd, setH]
 
 /-! ### 6b. key names round-trip for ALL names -/
 open Rv.Lock.KeyName in
